@@ -12,8 +12,9 @@ package pod
 //@ pure func phaseStep(o v1beta1.Phase, n v1beta1.Phase) bool = n == "Deleting" || (o == "" && n == "Bind") || (o == "Binding" && n == "Bind") || (o == "Bind" && n == "Detaching") || (o == "Detaching" && n == "Unbind") || (o == "Unbind" && n == "Binding")
 
 //@ # every status write of the pod controller is a legal step from the phase it read
-//@ guard call SubResourceWriter.Update in podCreate: phaseStep(prePodENI.Status.Phase, prePodENICopy.Status.Phase)
-//@ guard call SubResourceWriter.Update in reConfig: phaseStep(prePodENI.Status.Phase, update.Status.Phase)
+//@ # (the written object is named by the call argument, not by a local, so renaming locals does not matter)
+//@ guard call SubResourceWriter.Update in podCreate: isptr(arg1, v1beta1.PodENI) && phaseStep(prePodENI.Status.Phase, asptr(arg1, v1beta1.PodENI).Status.Phase)
+//@ guard call SubResourceWriter.Update in reConfig: isptr(arg1, v1beta1.PodENI) && phaseStep(prePodENI.Status.Phase, asptr(arg1, v1beta1.PodENI).Status.Phase)
 
 //@ # when creation fails after interfaces may have been created, every created interface is deleted again
 //@ ghost c10entered bool = false
@@ -28,7 +29,7 @@ package pod
 //@   requires prePodENI != nil && prePodENI.Status.Phase == "Unbind"
 
 //@ # pod deletion: a fixed-IP record goes Bind -> Detaching, any other record -> Deleting
-//@ guard call SubResourceWriter.Update#1 in podDelete: prePodENICopy.Status.Phase == "Detaching" && prePodENI.Status.Phase != "Deleting" && prePodENI.Status.Phase != "Detaching"
+//@ # (labelled guards: all status writes of podDelete form one obligation, whatever their order)
+//@ guard call SubResourceWriter.Update in podDelete as delete-steps: isptr(arg1, v1beta1.PodENI) && (asptr(arg1, v1beta1.PodENI).Status.Phase == "Deleting" || (asptr(arg1, v1beta1.PodENI).Status.Phase == "Detaching" && prePodENI.Status.Phase != "Deleting" && prePodENI.Status.Phase != "Detaching"))
 //@ # ... and Detaching is entered from Bind (see /verif/known_findings.json: fixed-IP records in Initial/Binding/Unbind are also sent to Detaching)
-//@ guard call SubResourceWriter.Update#1 in podDelete: prePodENI.Status.Phase == "Bind"
-//@ guard call SubResourceWriter.Update#2 in podDelete: phaseStep(prePodENI.Status.Phase, update.Status.Phase)
+//@ guard call SubResourceWriter.Update in podDelete as detach-from-bind: asptr(arg1, v1beta1.PodENI).Status.Phase == "Detaching" ==> prePodENI.Status.Phase == "Bind"
